@@ -254,6 +254,6 @@ theorem stats_path_extracted : Generated.scannedFunctions.contains "stats.confid
 
 /-- **table obligation**: the statistics helpers write nothing but their own locals (no module-level memo: what they return
     is a function of their arguments, also when several threads call them) -/
-theorem stats_path_writes_only_locals : statsEffects.all (·.kind == "local") = true := by decide
+theorem stats_path_writes_only_locals : statsEffects.all (fun e => e.kind == "local" || e.kind == "fresh-object") = true := by decide
 
 end Pyab.Properties
